@@ -191,7 +191,8 @@ TClean ==
   /\ LET sel == S(Ev.sel) IN
      IF Ev.declined
      THEN /\ Declined("Clean")
-          /\ Judge({<<"C15_declined_noop", Ev.pure /\ After(Ev, trk, hsh, fs) = <<TRUE, TRUE, TRUE>> >>})
+          /\ Judge({<<"C15_declined_noop", Ev.pure /\ After(Ev, trk, hsh, fs) = <<TRUE, TRUE, TRUE>> >>,
+                    <<"C18_unchanged_otherwise", EqT(Ev.after.hsh, hsh)>>})
      ELSE /\ Clean(sel, Ev.all)
           /\ Judge({
                <<"C15_exit", Ev.exit = 0>>,
@@ -207,7 +208,8 @@ TCancel ==
   /\ LET sel == S(Ev.sel) IN
      IF Ev.declined
      THEN /\ Declined("Cancel")
-          /\ Judge({<<"C17_declined_noop", Len(Ev.reqs) = 0 /\ Ev.pure>>})
+          /\ Judge({<<"C17_declined_noop", Len(Ev.reqs) = 0 /\ Ev.pure>>,
+                    <<"C18_unchanged_otherwise", EqT(Ev.after.hsh, hsh)>>})
      ELSE IF ~(S(Ev.refused) \subseteq CancelRequests(sel)) THEN Stuck("C00_driver_refused_unknown_id")
      ELSE /\ Cancel(sel, S(Ev.refused))
           /\ Judge({
